@@ -3,7 +3,6 @@ package worldc
 import (
 	"bytes"
 	"crypto/rand"
-	"encoding/base32"
 	"encoding/json"
 	"fmt"
 	"io"
@@ -51,6 +50,8 @@ type sent struct {
 	evIdx    int
 	retried  bool
 	secretAt int // reader log length when the request was sent (for /otp/secret)
+	rdPos    uint64
+	rdCpos   int
 	seq      bool
 }
 
@@ -391,6 +392,7 @@ func (w *world) deliver(cc *clientConn, s *sent, wire []byte, cuts []int, gaps [
 			w.expect(s)
 			s.at = time.Now()
 			s.secretAt = len(w.rd.Log)
+			s.rdPos, s.rdCpos = w.rd.State()
 			verifrt.ResetMeter(workCap)
 			if w.stallAt > 0 {
 				verifrt.SetStall(w.stallAt, w.stallDur)
@@ -601,8 +603,12 @@ func fieldMask(body []byte) string {
 	return fmt.Sprint(len(keys))
 }
 
-// checkSecretBytes: sequential /otp/secret answer must be exactly the bytes the
-// simulated random source handed out while this request was being served.
+// checkSecretBytes: a sequential /otp/secret answer must be what the library's
+// own RandomSecret returns when it is called directly on the same random
+// stream from the position this request found it at (self-reference: a defect
+// of the library's generator - C08 - is not this property's business; a
+// handler that does not use the library's generator, or not for the requested
+// hash, is).
 func (w *world) checkSecretBytes(s *sent, resp *response) {
 	var g struct {
 		Secret string `json:"secret"`
@@ -610,23 +616,46 @@ func (w *world) checkSecretBytes(s *sent, resp *response) {
 	if json.Unmarshal(resp.body, &g) != nil {
 		return
 	}
-	var got []byte
+	delivered := 0
 	for _, rec := range w.rd.Log[s.secretAt:] {
-		for i := 0; i < rec.N; i++ {
-			got = append(got, w.rd.ByteAt(rec.Off+uint64(i)))
+		delivered += rec.N
+	}
+	_, q, _ := strings.Cut(s.path, "?")
+	algo := otp.SHA1
+	for _, kv := range strings.Split(q, "&") {
+		if k, v, _ := strings.Cut(kv, "="); k == "algorithm" {
+			algo = mAlgo(&v)
 		}
 	}
-	verifh.Count("oracle.secret-bytes-traced-to-random-source", 1)
-	dec, err := otp.DecodeSecret(g.Secret)
-	if err != nil {
-		return // shape is judged by the model
+	var want string
+	var werr error
+	func() {
+		verifrt.ResetMeter(workCap)
+		saved := rand.Reader
+		rand.Reader = w.rd.CloneAt(s.rdPos, s.rdCpos)
+		defer func() {
+			rand.Reader = saved
+			if p := recover(); p != nil {
+				werr = fmt.Errorf("panic: %v", p)
+			}
+			verifrt.ResetMeter(0)
+		}()
+		want, werr = otp.RandomSecret(algo)
+	}()
+	if werr != nil {
+		verifh.Count("skip.model-call-panicked-or-tripped", 1)
+		return
 	}
-	// other requests (retries, probes on other connections) may have drawn from
-	// the stream in the same interval: the secret must be one contiguous piece of
-	// what the random source delivered since this request was sent
-	if !bytes.Contains(got, dec) {
-		want := base32.StdEncoding.WithPadding(base32.NoPadding).EncodeToString(got)
-		w.fail("answer==library", "/otp/secret", "secret-not-from-random-source", fmt.Sprintf("secret %q is not a contiguous part of what the random source delivered while this request was served (%q)", g.Secret, want))
+	size := map[otp.Algorithm]int{otp.SHA1: 20, otp.SHA256: 32, otp.SHA512: 64}[algo]
+	if delivered != size {
+		// other requests (earlier ones queued on a stalled connection, retries) drew
+		// from the stream in the same interval: the position is not this request's alone
+		verifh.Count("skip.secret-stream-shared-with-other-requests", 1)
+		return
+	}
+	verifh.Count("oracle.secret-compared-with-library-on-same-stream", 1)
+	if g.Secret != want {
+		w.fail("answer==library", "/otp/secret", "secret-not-the-library's", fmt.Sprintf("secret %q, but RandomSecret(%s) called directly on the same random stream (position %d) returns %q; %d bytes were drawn while the request was served", g.Secret, algoName(algo), s.rdPos, want, delivered))
 	}
 }
 
